@@ -28,12 +28,7 @@ def generate(repo):
                      'parserMachine = SequenceFileParser()',
                      'self.SeqObj = Sequence(parserMachine.parseSeqFile(sequenceFile))']:
             need(frag in src, 'SequenceParameters.__init__: missing `%s`' % frag[:50])
-        g = find_func(sq, '__init__', 'Sequence')
-        gs = W(ast.unparse(g))
-        for frag in ["if not verifyType(seq, str):\n    raise SequenceException('Must pass a string to a new Sequence object')",
-                     'if validateSeq:\n    seq = seq.upper()\n    seq = self.validateSequence(seq)',
-                     'self.seq = seq.upper()', 'self.len = len(seq)']:
-            need(frag in gs, 'Sequence.__init__: missing `%s`' % frag[:50])
+        # the head of Sequence.__init__ is tied semantically (g_minipy -> Props/Tie/minipy_init_tie.v)
         # validateSequence itself is tied semantically (g_minipy -> Props/Tie/minipy_validate_tie.v), not by shape
         ln = W(ast.unparse(find_func(sp, '__len__', 'SequenceParameters')))
         gl = W(ast.unparse(find_func(sp, 'get_length', 'SequenceParameters')))
